@@ -23,6 +23,13 @@ Proof.
 Qed.
 Print Assumptions C10_attribution_follows_generated_rule.
 
+(* the bound-by class demanded by the checker is the one bound_by, GENERATED from the current source, returns for the row's type and
+   the attributed event's stream and name *)
+Theorem C10_bound_by_follows_generated_rule : forall clipped ty evid a, find_ev clipped evid = Some a ->
+  bound_code clipped ty evid = bound_by_gen ty (stream a) (is_comm_kernel (name a)).
+Proof. exact bound_code_is_generated. Qed.
+Print Assumptions C10_bound_by_follows_generated_rule.
+
 Theorem C10_row_rule : forall clipped N r, brow_ok clipped N r = true ->
   exists nu nv, find_node N (r_u r) = Some nu /\ find_node N (r_v r) = Some nv /\
     r_bound r = bound_code clipped (r_ty r) (r_ev r) /\
